@@ -88,154 +88,136 @@ def world_literals(rep, ex: Explorer):
     rep.floor("symbolize_bitvec paths", n, 1)
 
 
+def _lits_summary_for(ex):
+    """symbolize_bitvec summarised for concrete worlds: the literals of world w as one opaque formula (WORLD.literals decides
+    what they are)."""
+    def lits_summary(I, fi, args, kwargs, node):
+        w = args[1] if len(args) > 1 else kwargs.get("bitvec")
+        if not (isinstance(w, Const) and isinstance(w.value, str)):
+            raise AnalysisError(f"{fn_label(ex.prog, PO + '.symbolize_bitvec')}: literals of a world that is not one of the ranking's worlds ({w!r})")
+        return I.alloc(HList([("one", FormulaV(("atom", ("worldlits", w.value), "v"), "pysmt"))]))
+    return lits_summary
+
+
+def _is_worldlits(it):
+    return it[0] == "f" and isinstance(it[1], tuple) and it[1][:1] == ("atom",) and isinstance(it[1][1], tuple) and it[1][1][:1] == ("worldlits",)
+
+
 def rank_min(rep, ex: Explorer):
-    """RANK.min on formula_rank."""
+    """RANK.min on formula_rank, decided by evaluation: the worlds of one and two atoms, the rank of a world a symbolic
+    integer (rank_world summarised), the outcome of every satisfiability test free.  Every test must be asked over the
+    literals of one world and the formula, nothing else (nothing left over from the previous world); every world must be
+    tested; and whatever the tests answer the result is the least rank among the worlds whose test said yes - None when
+    there is none - whether it is kept as a running minimum, collected and minimised, or compared explicitly (then every
+    assignment of small values to the ranks selects its path)."""
+    import itertools
+
     qual = f"{PO}.formula_rank"
     site = fn_label(ex.prog, qual)
 
-    def setup(I):
-        return [_obj(I), FormulaV(PHI, "pysmt")], {}
+    def rank_world(I, fi, args, kwargs, node):
+        w = args[1] if len(args) > 1 else kwargs.get("world")
+        if not (isinstance(w, Const) and isinstance(w.value, str)):
+            raise AnalysisError(f"{site}: rank of something that is not a world of the ranking ({w!r})")
+        I.log("rank_world", node, args=tuple(args[1:]), kwargs=dict(kwargs))
+        return LinV(F.lin_term(("r", w.value)))
 
-    paths = ex.run(qual, setup, summaries=_summ(), key="frank")
+    summ = _summ({f"{PO}.symbolize_bitvec": _lits_summary_for(ex)})
+    for c in ("PreOCF", "CustomPreOCF", "SystemZPreOCF", "RandomMinCRepPreOCF"):
+        summ[f"inference.preocf.{c}.rank_world"] = rank_world
     n = 0
-    for p in paths:
-        if p.outcome[0] != "return":
-            continue
-        loops = [ev for ev, Q in iter_events(p.events) if ev.kind == "loop" and not Q and ev.fam == WORLDS]
-        if not loops:
-            rep.violation("RANK.min", site, "world enumeration", "the rank of a formula is taken over all worlds of the ranking", extracted="no loop over the worlds", required="loop over ranks", function=site)
-            continue
-        lp = loops[-1]
-        wv = lp.evar
-        accname = None
-        for ev, Q in iter_events(p.events):
-            if ev.kind == "loop.vars" and ev.loop == lp.id:
-                for (kind, name), (init, cs, newv) in ev.vars.items():
-                    if kind != "var":
-                        continue
-                    if init is not None and cs:
-                        # a variable that exists before the loop and is replaced inside it: the running minimum
-                        accname = name
-                        ok_init = isinstance(init, Const) and init.value is None
-                        rep.check(ok_init, "RANK.min", site, "initial value", "no world seen yet ⇒ undefined", extracted=repr(init), required="None", function=site)
-                        carried = ("carried", lp.id, name)
-                        for g, v in cs:
-                            n += 1
-                            okv = isinstance(v, Sym) and v.label == ("rank", ("elem", wv, "key"))
-                            rep.check(okv, "RANK.min", site, "candidate", "the candidate is the rank of the world just tested", extracted=repr(v), required="rank_world(world)", function=site)
-        if accname is None:
-            n += _rank_min_collected(rep, site, p, lp, wv)
-            continue
-        # guard: updated iff the world satisfies the formula and (unset or strictly smaller)
-        upd_guards = []
-        for case in lp.cases:
-            env_assign = case.state.frames[-1].env.get(accname) if accname else None
-            changed = isinstance(env_assign, Sym) and env_assign.label[:1] == ("rank",)
-            sat = None
-            q = None
-            for ev, Q in iter_events(case.events):
-                if ev.kind == "query":
-                    q = ev
-            d = dict(case.guard)
-            if q is not None:
-                sat = d.get(("sat", q.qid))
-                got = canon_items(flat(q.frames))
-                want = canon_items(world_items(wv) + [("f", PHI)])
-                rep.check(got == want, "RANK.min", f"{site}:{q.node.lineno}", "satisfaction test", "a world counts iff world literals ∧ formula is satisfiable, with nothing else in scope",
-                          extracted=show_items(flat(q.frames)), required=show_items(world_items(wv) + [("f", PHI)]), function=site)
-            carried = ("carried", lp.id, accname)
-            unset = d.get(("isnone", carried))
-            lt = None
-            for k, v in d.items():
-                if k[0] == "cmp" and k[1] == "<":
-                    lt = (k, v)
-            upd_guards.append((changed, sat, unset, lt))
-            # spec: update iff sat ∧ (unset ∨ rank < acc)
-            smaller = None
-            if lt is not None:
-                k, v = lt
-                rk = ("rank", ("elem", wv, "key"))
-                a_lt_b = None  # (a, b) of the test a < b
-                if isinstance(k[2], tuple) and k[2][:1] == ("lin",):
-                    terms = dict(k[2][1][0])
-                    if terms.get(rk) == 1 and terms.get(carried) == -1 and k[2][1][1] == 0:
-                        a_lt_b = (rk, carried)
-                    elif terms.get(rk) == -1 and terms.get(carried) == 1 and k[2][1][1] == 0:
-                        a_lt_b = (carried, rk)
-                else:
-                    a_lt_b = (k[2], k[3])
-                if a_lt_b == (rk, carried):
-                    smaller = v
-                else:
-                    rep.violation("RANK.min", site, "comparison", "the accumulator is replaced when the new rank is strictly smaller", extracted=show_pred(k), required="rank < current minimum", function=site)
-            want_upd = bool(sat) and (bool(unset) or bool(smaller))
-            if sat is False:
-                want_upd = False
-            rep.check(changed == want_upd, "RANK.min", site, f"update sat={sat} unset={unset} smaller={smaller}", "the accumulator is updated iff the world satisfies the formula and it is unset or the rank is strictly smaller",
-                      extracted=f"updated={changed}", required=f"updated={want_upd}", function=site)
-        for ev, Q in iter_events(p.events):
-            if ev.kind in ("loop.unbalanced", "solver.pop-below"):
-                rep.violation("RANK.min", f"{site}:{getattr(ev.node, 'lineno', '?')}", "scope balance", "the world's literals are removed before the next world is tested", extracted=ev.kind, required="balanced push/pop (or a fresh solver) per world", function=site)
-        rv = p.outcome[1]
-        ok = isinstance(rv, Sym) and rv.label == ("acc", lp.id, accname)
-        rep.check(ok, "RANK.min", site, "result", "the result is the accumulated minimum (None if no world satisfies the formula)", extracted=repr(rv), required="the accumulator", function=site)
-    rep.floor("RANK.min update cases", n, 1)
+    for size in (1, 2):
+        sig = ["a", "b"][:size]
+        worlds = ["".join(t) for t in itertools.product("01", repeat=size)]
 
+        def setup(I, sig=sig, worlds=worlds):
+            ranks = I.alloc(HDict(entries={w: Sym(("stored", w), "optint") for w in worlds}))
+            o = I.alloc(HObj(CUS, {"ranks": ranks, "signature": I.alloc(HList([("one", Const(x)) for x in sig])), "conditionals": Const(None),
+                                   "ranking_system": Const("custom"), "_metadata": I.alloc(HDict()), "_state": I.alloc(HDict())}))
+            return [o, FormulaV(PHI, "pysmt")], {}
 
-def _rank_min_collected(rep, site, p, lp, wv):
-    """RANK.min, second form: the ranks of the worlds that satisfy the formula are collected and the result is their
-    minimum (None when nothing was collected)."""
-    rk = ("rank", ("elem", wv, "key"))
-    n = 0
-    collected = False
-    for case in lp.cases:
-        q = None
-        for ev, Q in iter_events(case.events):
-            if ev.kind == "query":
-                q = ev
-        d = dict(case.guard)
-        sat = None
-        if q is not None:
-            sat = d.get(("sat", q.qid))
-            got = canon_items(flat(q.frames))
-            want = canon_items(world_items(wv) + [("f", PHI)])
-            rep.check(got == want, "RANK.min", f"{site}:{q.node.lineno}", "satisfaction test", "a world counts iff world literals ∧ formula is satisfiable, with nothing else in scope",
-                      extracted=show_items(flat(q.frames)), required=show_items(world_items(wv) + [("f", PHI)]), function=site)
-        apps = [ev for ev, Q in iter_events(case.events) if ev.kind in ("list.append",) and not Q]
-        ranks = [ev for ev in apps if isinstance(ev.value, Sym) and ev.value.label == rk]
-        if apps and len(ranks) != len(apps):
-            rep.violation("RANK.min", site, "candidate", "the candidate is the rank of the world just tested", extracted=repr(apps[0].value), required="rank_world(world)", function=site)
-            continue
-        n += 1
-        collected = collected or bool(ranks)
-        rep.check(bool(ranks) == bool(sat), "RANK.min", site, f"collected sat={sat}", "the rank of a world takes part in the minimum iff the world satisfies the formula", extracted=f"collected={bool(ranks)}", required=f"collected={bool(sat)}", function=site)
-    for ev, Q in iter_events(p.events):
-        if ev.kind in ("loop.unbalanced", "solver.pop-below"):
-            rep.violation("RANK.min", f"{site}:{getattr(ev.node, 'lineno', '?')}", "scope balance", "the world's literals are removed before the next world is tested", extracted=ev.kind, required="balanced push/pop (or a fresh solver) per world", function=site)
-    if not collected:
-        raise AnalysisError(f"{site}: neither a running minimum nor a collection of the ranks of the satisfying worlds was found")
-    rv = p.outcome[1]
-    emp = [v for k, v in p.decisions if k[0] == "empty" and F.mentions(k, {rk}) or (k[0] == "empty" and "rank" in repr(k))]
-    if emp and emp[-1] is True:
-        rep.check(isinstance(rv, Const) and rv.value is None, "RANK.min", site, "result (no model)", "no world satisfies the formula ⇒ undefined", extracted=repr(rv), required="None", function=site)
-        return n
-    ok = False
-    how = repr(rv)[:120]
-    if isinstance(rv, LinV) and len(rv.lin[0]) == 1 and rv.lin[1] == 0 and rv.lin[0][0][1] == 1 and isinstance(rv.lin[0][0][0], tuple):
-        t = rv.lin[0][0][0]
-        if t[0] == "max":
-            rep.violation("RANK.min", site, "result", "the rank of a formula is the least rank of its models", extracted="max(...)", required="min(...)", function=site)
-            return n
-        if t[0] == "min" and len(t) >= 2 and isinstance(t[1], tuple) and len(t[1]) == 1 and t[1][0][0] == "each":
-            _, b, fam, g, val = t[1][0]
-            ok = fam == WORLDS and F.subst_any(val, {b: wv}) == rk and "sat" in repr(g) and not [x for x in t[2:] if isinstance(x, tuple) and x and x[0] == "default"]
-            how = f"min over {F.show_desc(fam)} of {F.show_desc(val)} where {show_pred(g)[:80]}"
-    if not emp and ok:
-        # min(...) of a possibly empty collection without a guard raises for a formula without models
-        rep.violation("RANK.min", site, "result (no model)", "no world satisfies the formula ⇒ undefined (None), not an error", extracted="min of the collected ranks without an emptiness test", required="None when nothing was collected", function=site)
-        return n
-    rep.check(ok, "RANK.min", site, "result", "the result is the minimum of the collected ranks", extracted=how, required="min{rank(w) : w satisfies the formula}", function=site)
-    return n
+        paths = ex.run(qual, setup, summaries=summ, key=f"frank-eval-{size}")
+        groups = {}
+        for p in paths:
+            dec = dict(p.decisions)
+            answers = {}
+            ok_path = True
+            for ev, Q in iter_events(p.events):
+                if ev.kind != "query":
+                    continue
+                fr = list(flat(ev.frames))
+                ws = [it[1][1][1] for it in fr if _is_worldlits(it)]
+                rest = [it for it in fr if not _is_worldlits(it)]
+                good = len(ws) == 1 and canon_items(rest) == canon_items([("f", PHI)])
+                rep.check(good, "RANK.min", f"{site}:{ev.node.lineno}", "satisfaction test", "a world counts iff world literals ∧ formula is satisfiable, with nothing else in scope (the literals of the previous world are gone)",
+                          extracted=show_items(fr)[:220], required="{literals of one world ; the formula}", function=site)
+                if not good:
+                    ok_path = False
+                    break
+                a = dec.get(("sat", ev.qid))
+                if a is None:
+                    continue
+                if ws[0] in answers and answers[ws[0]] != a:
+                    ok_path = False  # the same test answered differently twice: not an execution
+                    break
+                answers[ws[0]] = a
+            if not ok_path:
+                continue
+            other = [(k, v) for k, v in p.decisions if k[0] != "sat"]
+            foreign = [(k, v) for k, v in other if k[0] not in ("cmp", "nonzero")]
+            if foreign and not answers and p.outcome[0] == "return":
+                # an answer without looking at a single world, decided by something else (a memo kept between calls, a flag)
+                n += 1
+                rep.violation("RANK.min", site, f"world enumeration (|Σ|={size})", "the rank of a formula is taken over the worlds of this ranking, every time it is asked",
+                              extracted=f"returns {p.outcome[1]!r} without testing a world when {show_pred(foreign[0][0] if foreign[0][1] else ('not', foreign[0][0]))[:120]}"[:260], required="every world tested", function=site)
+                continue
+            other = [(k, v) for k, v in other if k[0] in ("cmp", "nonzero")]
+            groups.setdefault(tuple(sorted(answers.items())), []).append((p, other))
+        for key, members in sorted(groups.items()):
+            answers = dict(key)
+            S = sorted(w for w, a in answers.items() if a)
+            slot = f"|Σ|={size}: models {S}"
+            missing = [w for w in worlds if w not in answers]
+            if missing:
+                n += 1
+                rep.violation("RANK.min", site, f"world enumeration (|Σ|={size})", "the rank of a formula is taken over all worlds of the ranking", extracted=f"worlds {missing} are never tested (answers {answers})", required="every world tested", function=site)
+                continue
+            n += 1
+            if any(p.outcome[0] != "return" for p, _ in members):
+                bad = next(p for p, _ in members if p.outcome[0] != "return")
+                rep.violation("RANK.min", site, slot, "the rank of a formula is defined for every formula (None without models)", extracted=f"{bad.outcome[0]} {bad.outcome[1]!r}"[:100], required="a rank or None", function=site)
+                continue
+            if not S:
+                okn = all(isinstance(p.outcome[1], Const) and p.outcome[1].value is None for p, _ in members)
+                rep.check(okn, "RANK.min", site, slot, "no world satisfies the formula ⇒ undefined", extracted=repr(members[0][0].outcome[1]), required="None", function=site)
+                continue
+            want_atoms = {("r", w) for w in S}
+            stale = [p for p, other in members if "'stored'" in repr(other) or "'stored'" in repr(desc(p.outcome[1]))]
+            if stale:
+                rep.violation("RANK.min", site, slot, "the candidates are the ranks rank_world gives (computed on demand), not whatever the cache holds", extracted=f"the cached entry of a world is used: {stale[0].outcome[1]!r}"[:160], required="rank_world(world)", function=site)
+                continue
+            if len(members) == 1 and not members[0][1]:
+                rv = members[0][0].outcome[1]
+                got = _min_atoms(rv) if isinstance(rv, LinV) else None
+                rep.check(got == want_atoms, "RANK.min", site, slot, "the result is the least rank among the worlds that satisfy the formula", extracted=repr(rv)[:160], required=f"min{sorted(w for w in S)}", function=site)
+                continue
+            atoms = sorted(want_atoms)
+            bad = None
+            for vals in itertools.product((0, 1, 2), repeat=len(atoms)):
+                env = dict(zip(atoms, vals))
+                sel = [p for p, other in members if _decisions_hold(other, env)]
+                if len(sel) != 1:
+                    raise AnalysisError(f"{site}: {len(sel)} paths for one assignment of the ranks ({slot})")
+                rv = sel[0].outcome[1]
+                try:
+                    val = None if isinstance(rv, Const) and rv.value is None else _lin_eval(rv if isinstance(rv, LinV) else desc(rv), env)
+                except AnalysisError:
+                    val = repr(rv)
+                if val != min(vals):
+                    bad = bad or (env, val)
+            rep.check(bad is None, "RANK.min", site, slot, "the result is the least rank among the worlds that satisfy the formula",
+                      extracted=(f"ranks {dict((k[1], v) for k, v in bad[0].items())} give {bad[1]}" if bad else f"the minimum under every assignment of the ranks ({len(members)} paths)"), required="the least rank", function=site)
+    rep.floor("RANK.min evaluations", n, 12)
 
 
 def accept_decision(rep, ex: Explorer):
@@ -1222,59 +1204,84 @@ IMPACTS = ("impacts",)
 
 
 def crep_rank(rep, ex: Explorer, cls: str):
-    """CREP.rank and KEY.no-positional on <cls>.c_vec2ocf: the rank accumulates impact(c) exactly for the conditionals
-    c with SAT(world ∧ falsification(c)); the impact list is positional (order of the conditionals), so it is indexed
-    by the position of c, never by an arithmetic function of its key."""
+    """CREP.rank and KEY.no-positional on <cls>.c_vec2ocf, decided by evaluation: bases of 0..3 conditionals under keys
+    that are neither consecutive nor in order, the impact vector positional (one symbolic impact per position), the world
+    one concrete world, the outcome of every satisfiability test free.  Every test must be asked over the literals of the
+    world and the falsification of one conditional, nothing else; every conditional must be tested; and whatever the
+    tests answer the result is the sum of the impacts at the *positions* of the conditionals whose test said yes."""
+    import itertools
+
     qual = f"{cls}.c_vec2ocf"
     site = fn_label(ex.prog, qual)
-
-    def setup(I):
-        bb = make_belief_base(I)
-        conds = I.deref(bb).attrs["conditionals"]
-        s = _obj(I, cls, lambda I: {"conditionals": conds, "_impacts": ElemV(IMPACTS, "coll", "int")})
-        return [s, ElemV(W, "key")], {}
-
-    paths = ex.run(qual, setup, summaries=_summ(), key=f"cvec-{cls}")
+    summ = _summ({f"{PO}.symbolize_bitvec": _lits_summary_for(ex), f"{cls}.symbolize_bitvec": _lits_summary_for(ex)})
     n = 0
-    for p in paths:
-        if p.outcome[0] != "return":
-            continue
-        loops = [ev for ev, Q in iter_events(p.events) if ev.kind == "loop" and not Q and ev.fam == KEYS_D]
-        if not loops:
-            rep.violation("CREP.rank", site, "conditionals", "the rank sums over the conditionals of the base", extracted="no loop over the conditionals", required="loop", function=site)
-            continue
-        lp = loops[-1]
-        cv = lp.evar
-        for case in lp.cases:
-            d = dict(case.guard)
-            q = None
-            for ev, Q in iter_events(case.events):
-                if ev.kind == "query":
-                    q = ev
-            if q is None:
+    for keys in ((), (5,), (7, 2), (9, 4, 6)):
+        names = [f"c{k}" for k in range(len(keys))]
+
+        def setup(I, keys=keys, names=names):
+            conds = I.alloc(HDict(entries={k: ElemV(("obj", nm), "cond") for k, nm in zip(keys, names)}))
+            imp = I.alloc(HList([("one", LinV(F.lin_term(("impact", i)))) for i in range(len(keys))]))
+            o = I.alloc(HObj(cls, {"ranks": I.alloc(HDict()), "signature": I.alloc(HList([("one", Const("a")), ("one", Const("b"))])), "conditionals": conds,
+                                   "ranking_system": Const("random_min_c_rep"), "_impacts": imp, "_metadata": I.alloc(HDict()), "_state": I.alloc(HDict())}))
+            return [o, Const("10")], {}
+
+        paths = ex.run(qual, setup, summaries=summ, key=f"cvec-eval-{cls}-{len(keys)}")
+        fal = {nm: canon_item(("f", falsification(("obj", nm)))) for nm in names}
+        combos = set()
+        for p in paths:
+            dec = dict(p.decisions)
+            answers = {}
+            feasible = True
+            for ev, Q in iter_events(p.events):
+                if ev.kind != "query":
+                    continue
+                fr = list(flat(ev.frames))
+                ws = [it[1][1][1] for it in fr if _is_worldlits(it)]
+                rest = [canon_item(it) for it in fr if not _is_worldlits(it)]
+                who = [nm for nm in names if rest == [fal[nm]]]
+                good = ws == ["10"] and len(who) == 1
+                rep.check(good, "CREP.rank", f"{site}:{ev.node.lineno}", "falsification test", "a conditional counts iff world ∧ A∧¬B is satisfiable, with nothing else in scope",
+                          extracted=show_items(fr)[:220], required="{literals of the world ; c.A∧¬c.B}", function=site)
+                if not good:
+                    feasible = False
+                    break
+                a_ = dec.get(("sat", ev.qid))
+                if a_ is None:
+                    continue
+                if who[0] in answers and answers[who[0]] != a_:
+                    feasible = False
+                    break
+                answers[who[0]] = a_
+            if not feasible:
                 continue
+            other = [k for k, v in p.decisions if k[0] != "sat"]
+            if other:
+                raise AnalysisError(f"{site}: the rank depends on {show_pred(other[0])[:100]}")
             n += 1
-            want = canon_items(world_items(W) + [("f", falsification(cv))])
-            rep.check(canon_items(flat(q.frames)) == want, "CREP.rank", f"{site}:{q.node.lineno}", "falsification test", "a conditional counts iff world ∧ A∧¬B is satisfiable, with nothing else in scope",
-                      extracted=show_items(flat(q.frames)), required=show_items(world_items(W) + [("f", falsification(cv))]), function=site)
-            sat = d.get(("sat", q.qid))
-            aug = [ev for ev, Q in iter_events(case.events) if ev.kind == "augassign"]
-            rep.check(bool(aug) == bool(sat), "CREP.rank", site, f"accumulation sat={sat}", "the impact is added exactly when the world falsifies the conditional", extracted=f"{len(aug)} addition(s)", required="1" if sat else "0", function=site)
-            for a in aug:
-                rhs = a.rhs
-                carried_ok = isinstance(a.cur, Sym) and a.cur.label[:1] == ("carried",)
-                okv = a.op == "Add" and isinstance(rhs, ElemV) and isinstance(rhs.var, tuple) and rhs.var[:2] == ("at", IMPACTS)
-                rep.check(okv and carried_ok, "CREP.rank", f"{site}:{a.node.lineno}", "summand", "rank = rank + impact of the falsified conditional", extracted=f"{a.cur!r} {a.op} {rhs!r}"[:200], required="rank += impacts[..]", function=site)
-                if okv:
-                    idx = rhs.var[2][1]
-                    terms = dict(idx[0])
-                    pos_term = ("pos", cv, KEYS_D)
-                    is_pos = terms == {pos_term: 1} and idx[1] == 0
-                    rep.check(is_pos, "KEY.no-positional", f"{site}:{a.node.lineno}", "impact index", "the positional impact vector is indexed by the position of the conditional in the base (not by an arithmetic function of its key)",
-                              extracted=F.show_lin(idx), required="position of c among the conditionals", function=site)
-        rv = p.outcome[1]
-        rep.check(isinstance(rv, Sym) and rv.label[:1] == ("acc",), "CREP.rank", site, "result", "the accumulated sum is returned", extracted=repr(rv), required="the accumulator", function=site)
-    rep.floor(f"CREP.rank cases of {cls.rsplit('.', 1)[1]}", n, 2)
+            falsified = [nm for nm in names if answers.get(nm)]
+            slot = f"keys {list(keys)}: falsified {[keys[names.index(nm)] for nm in falsified]}"
+            missing = [nm for nm in names if nm not in answers]
+            if missing:
+                rep.violation("CREP.rank", site, f"conditionals (keys {list(keys)})", "the rank sums over all conditionals of the base", extracted=f"never tested: keys {[keys[names.index(nm)] for nm in missing]}", required="every conditional tested", function=site)
+                continue
+            combos.add(tuple(sorted(answers.items())))
+            if p.outcome[0] != "return":
+                idx_err = p.outcome[0] == "raise" and getattr(p.outcome[1], "cls", "") in ("IndexError", "KeyError")
+                rep.violation("KEY.no-positional" if idx_err else "CREP.rank", site, slot, "every world has a rank: the positional impact vector is indexed by the position of the conditional (a function of the key runs out of the vector)" if idx_err else "every world has a rank",
+                              extracted=f"{p.outcome[0]} {p.outcome[1]!r}"[:100], required="the sum", function=site)
+                continue
+            rv = p.outcome[1]
+            lv = LinV(F.lin_const(rv.value)) if isinstance(rv, Const) and isinstance(rv.value, int) and not isinstance(rv.value, bool) else rv
+            want = F.lin_const(0)
+            for nm in falsified:
+                want = F.lin_add(want, F.lin_term(("impact", names.index(nm))))
+            ok = isinstance(lv, LinV) and lv.lin == want
+            by_key = isinstance(lv, LinV) and not ok
+            rep.check(ok, "CREP.rank" if not by_key or len(keys) < 2 else "KEY.no-positional", site, slot, "the rank is the sum of the impacts of the falsified conditionals; the impact vector is positional (order of the conditionals), never indexed by a function of the key",
+                      extracted=repr(rv)[:160], required=F.show_lin(want), function=site)
+        if len(combos) < 2 ** len(keys):
+            rep.violation("CREP.rank", site, f"cases (keys {list(keys)})", "every conditional is tested whatever the other tests answer", extracted=f"{len(combos)} combinations of answers", required=str(2 ** len(keys)), function=site)
+    rep.floor(f"CREP.rank evaluations of {cls.rsplit('.', 1)[1]}", n, 10)
 
 
 def crep_init(rep, ex: Explorer, cls=CR):
